@@ -28,6 +28,8 @@ def cases(rng, tier):
         cs.append({"line": f"cfg {C.hexs(b)}", "exe": "analyze", "tags": ["bytes"], "timeout": 1800})
     for _ in range(n // 2):
         cs.append({"line": f"cfg {C.hexs(G.gen_loops(rng))}", "exe": "analyze", "tags": ["loops"], "timeout": 1800})
+    for _ in range(n // 5):
+        cs.append({"line": f"cfg {C.hexs(G.gen_highbits(rng))}", "exe": "analyze", "tags": ["highbits"], "timeout": 1800})
     return cs
 
 
